@@ -280,7 +280,12 @@ Error CodeHolder::reinit() noexcept {
   CodeHolder_reset_sections_and_containers(this, ResetPolicy::kSoft);
 
   // Create a default section and insert it to the `_sections` array.
-  (void)CodeHolder_init_section_storage(this);
+  Error err = CodeHolder_init_section_storage(this);
+  if (ASMJIT_UNLIKELY(err != Error::kOk)) {
+    // There is no storage for the .text section - the only consistent state left is a reset CodeHolder.
+    reset(ResetPolicy::kSoft);
+    return make_error(Error::kOutOfMemory);
+  }
   CodeHolder_add_text_section(this);
 
   BaseEmitter* emitter = _attached_first;
